@@ -112,7 +112,25 @@ def Kind.fields : Kind → List (String × Nat × Nat)
   | .efiSdt32 => [("sdt", 8, 4)]
   | .efiSdt64 => [("sdt", 8, 8)]
   | .loadBase => [("addr", 8, 4)]
+  | .module => [("start", 8, 4), ("end", 12, 4)]
+  | .mmap => [("entry_size", 8, 4), ("entry_version", 12, 4)]
+  | .elf => [("num", 8, 4), ("entsize", 12, 4), ("shndx", 16, 4)]
+  | .fb => [("address", 8, 8), ("pitch", 16, 4), ("width", 20, 4), ("height", 24, 4), ("bpp", 28, 1)]
+  | .smbios => [("major", 8, 1), ("minor", 9, 1)]
+  | .rsdp1 => [("revision", 23, 1), ("rsdt", 24, 4)]
+  | .rsdp2 => [("revision", 23, 1), ("xsdt", 32, 8), ("ext_checksum", 40, 1)]
+  | .loader => [("typ", 0, 4), ("size", 4, 4)]
+  | .vbe => [("mode", 8, 2), ("iseg", 10, 2), ("ioff", 12, 2), ("ilen", 14, 2)]
   | _ => []
+
+/-- VBE control info (tag offset 16) and mode info (tag offset 528): (offset from tag start, width), in the order of the
+    Rust structs `VBEControlInfo` / `VBEModeInfo` (both `repr(C, packed)`) -/
+def vbeControlFields : List (Nat × Nat) :=
+  [(16, 1), (17, 1), (18, 1), (19, 1), (20, 2), (22, 4), (26, 4), (30, 4), (34, 2), (36, 2), (38, 4), (42, 4), (46, 4)]
+def vbeModeFields : List (Nat × Nat) :=
+  [(528, 2), (530, 1), (531, 1), (532, 2), (534, 2), (536, 2), (538, 2), (540, 4), (544, 2), (546, 2), (548, 2), (550, 1),
+   (551, 1), (552, 1), (553, 1), (554, 1), (555, 1), (556, 1), (557, 1), (559, 1), (560, 1), (561, 1), (562, 1), (563, 1),
+   (564, 1), (565, 1), (566, 1), (567, 1), (568, 4), (572, 4), (576, 2)]
 
 /-! ### strings (util.rs: CStr::from_bytes_until_nul + to_str) -/
 
